@@ -42,6 +42,9 @@ LinkDiff(m, L) ==
       bad == {i \in DOMAIN cl : ~cl[i][2]}
   IN IF bad = {} THEN "" ELSE "link:" \o cl[CHOOSE i \in bad : \A j \in bad : i <= j][1]
 
+StoreProp(m, s) == IF s.c = 0 THEN [m EXCEPT !.tables[s.t].props = Append(@, <<s.k, s.v>>)]
+                   ELSE [m EXCEPT !.tables[s.t].cols[s.c].props = Append(@, <<s.k, s.v>>)]
+
 Verdict(e) ==
   LET exp == ParseDoc(e.doc, e.allow)
       asb == ParseDocAsBuilt(e.doc, e.allow)
@@ -68,6 +71,10 @@ Verdict(e) ==
                IN IF od # "" THEN "option-off:" \o od
                   ELSE IF plain /\ ~e.obs.same_dbml THEN "option changes .dbml of a property-free document"
                   ELSE IF plain /\ ~e.obs.same_sql THEN "option changes .sql of a property-free document"
+                  \* "stored on THAT table or column": one more property stored in place on one object (chosen by the
+                  \* harness) shows on that object and nowhere else
+                  ELSE IF exp.kind = "db" /\ e.obs.store.t # 0 /\ ModelDiff(StoreProp(exp, e.obs.store), e.obs.after) # ""
+                       THEN "a property stored on one object: " \o ModelDiff(StoreProp(exp, e.obs.store), e.obs.after)
                   ELSE ""
      ELSE IF e.want = "links" /\ exp.kind = "db"
           THEN LinkDiff(exp, e.links)
